@@ -92,3 +92,44 @@ pub fn build(entries: &[(String, Vec<u8>)]) -> Vec<u8> {
 	out.extend(std::iter::repeat(0u8).take(1024));
 	out
 }
+
+/// Header with a raw-byte name (need not be UTF-8) and a type flag; names longer than 100 bytes are cut
+/// (see `build_raw`, which precedes them with a GNU long-name record).
+pub fn header_raw(name: &[u8], size: usize, typeflag: u8) -> [u8; 512] {
+	let mut h = [0u8; 512];
+	let n = name.len().min(100);
+	h[..n].copy_from_slice(&name[..n]);
+	h[100..108].copy_from_slice(b"0000644\0");
+	h[108..116].copy_from_slice(b"0000000\0");
+	h[116..124].copy_from_slice(b"0000000\0");
+	h[124..136].copy_from_slice(format!("{:011o}\0", size).as_bytes());
+	h[136..148].copy_from_slice(b"00000000000\0");
+	h[156] = typeflag;
+	h[257..263].copy_from_slice(b"ustar ");
+	h[263..265].copy_from_slice(b" \0");
+	let c = checksum(&h);
+	h[148..156].copy_from_slice(format!("{:06o}\0 ", c).as_bytes());
+	h
+}
+
+/// Like `build`, for entries whose names are raw bytes, may be longer than 100 bytes (GNU `L` long-name
+/// record in front, as GNU tar writes them) and may be directories (type flag `5`, no data).
+pub fn build_raw(entries: &[(Vec<u8>, Vec<u8>, u8)]) -> Vec<u8> {
+	let mut out = vec![];
+	let mut put = |out: &mut Vec<u8>, h: [u8; 512], data: &[u8]| {
+		out.extend_from_slice(&h);
+		out.extend_from_slice(data);
+		let pad = (512 - data.len() % 512) % 512;
+		out.extend(std::iter::repeat(0u8).take(pad));
+	};
+	for (name, data, typeflag) in entries {
+		if name.len() > 100 {
+			let mut long = name.clone();
+			long.push(0);
+			put(&mut out, header_raw(b"././@LongLink", long.len(), b'L'), &long);
+		}
+		put(&mut out, header_raw(name, data.len(), *typeflag), data);
+	}
+	out.extend(std::iter::repeat(0u8).take(1024));
+	out
+}
